@@ -381,8 +381,14 @@ pub fn generate(seed: u64, idx: u64, thorough: bool) -> Case {
             out_poison: 0,
         })
     } else {
-        let n = *rng.pick(&ns[..2]);
-        let word_bits = if n >= 16 && rng.chance(300) { 16 } else { 8 };
+        let n = if rng.chance(250) { *rng.pick(ns) } else { *rng.pick(&ns[..2]) };
+        let word_bits = if n >= 32 && rng.chance(250) {
+            32
+        } else if n >= 16 && rng.chance(300) {
+            16
+        } else {
+            8
+        };
         let bit_start = rng.below(word_bits as u64) as usize;
         let bit_count = rng.range(1, (word_bits as usize - bit_start).min(4) as u64) as usize;
         Subject::Prep(PrepSpec {
